@@ -18,6 +18,11 @@ import (
 	"github.com/anishathalye/porcupine"
 
 	"github.com/irai/packet"
+	"github.com/irai/packet/fastlog"
+	"github.com/irai/packet/handlers/arp_spoofer"
+	"github.com/irai/packet/handlers/dhcp4_spoofer"
+	"github.com/irai/packet/handlers/dns_naming"
+	"github.com/irai/packet/handlers/icmp_spoofer"
 
 	"verif/harness/gen"
 	"verif/harness/mon"
@@ -279,7 +284,11 @@ func (cr *c09Run) apiWorker(proc int, seed int64, nOps int, wg *sync.WaitGroup) 
 		mac := hw(c09MACs[r.Intn(len(c09MACs))])
 		ip := ips[r.Intn(len(ips))]
 		reg := r.Intn(len(c09RegMACs))
-		switch k := r.Intn(24); k {
+		k := r.Intn(24)
+		if proc == 0 && i%2 == 0 {
+			k = 17 // the first API goroutine spends half of its calls on the handlers' hunt entry points for leased addresses
+		}
+		switch k {
 		case 0, 1:
 			w.op("FindIP", func() {
 				if h := s.FindIP(ip); h != nil {
@@ -339,7 +348,7 @@ func (cr *c09Run) apiWorker(proc int, seed int64, nOps int, wg *sync.WaitGroup) 
 		case 16:
 			w.op("icmp6.StopHunt", func() { st.icmp6.StopHunt(packet.Addr{MAC: mac, IP: ips[6+2*r.Intn(3)]}) })
 		case 17:
-			if r.Intn(2) == 0 {
+			if r.Intn(2) == 0 || proc == 0 {
 				// the DHCP handler's hunt entry points, for the address the MAC was offered / leased
 				w.op("dhcp.StartHunt/StopHunt", func() {
 					// every client the harness side DHCP state knows a lease for, then the MAC drawn above
@@ -484,6 +493,13 @@ func (cr *c09Run) run() {
 	old := runtime.GOMAXPROCS(procs)
 	defer runtime.GOMAXPROCS(old)
 	e := gen.DefaultEnv()
+	// the library's own logging orders goroutines too (fastlog hands its line buffers around through a sync.Pool, which the
+	// race detector treats as synchronisation): half of the runs are silent (error level), a quarter at info, a quarter at debug
+	// level (where the rendering of hosts and tables runs concurrently with everything else)
+	lv := []fastlog.LogLevel{fastlog.LevelDebug, fastlog.LevelError, fastlog.LevelInfo, fastlog.LevelError}[cr.idx%4]
+	for _, l := range []*fastlog.Logger{packet.Logger, arp_spoofer.Logger, dhcp4_spoofer.Logger, dns_naming.Logger, icmp_spoofer.Logger4, icmp_spoofer.Logger6} {
+		l.SetLevel(lv)
+	}
 	cr.st = newStack(scratch, mon.DefaultNIC())
 	cr.st.rec.Sharded()
 	cr.recordHistory = cr.idx%3 == 0
@@ -692,7 +708,7 @@ func (cr *c09Run) run() {
 	for _, p := range points {
 		yv = append(yv, fmt.Sprint(cr.yieldV[p]))
 	}
-	c.Class(fmt.Sprintf("procs=%d api=%d yield=%s", procs, nAPI, strings.Join(yv, "")))
+	c.Class(fmt.Sprintf("procs=%d api=%d yield=%s log=%v", procs, nAPI, strings.Join(yv, ""), lv))
 	c.Sample(map[string]any{"run": cr.idx, "GOMAXPROCS": procs, "api_goroutines": nAPI, "yield_vector(point order " + strings.Join(points, ",") + ")": strings.Join(yv, ""),
 		"frames_handled": handled.Load(), "purges": purges.Load(), "barriers": barriers, "harness_ops": cr.progress(), "history_ops": nh, "yield_points_with_overlap": overl})
 }
